@@ -9,7 +9,7 @@ From DV Require Import Gen.Alias.
 Open Scope string_scope.
 
 Definition expected_retention_sites : list string :=
-  ["dhcpv6/option_vendor_opts.go:vendParseOption: literal field data"].
+  ["dhcpv6:vendParseOption: literal field"].
 
 Lemma retention_sites_match : retention_sites = expected_retention_sites.
 Proof. reflexivity. Qed.
